@@ -137,6 +137,10 @@ def configs(tier, seed):
                     for pt, p in _phases(tier, seed, 64.0)[:3]:
                         out.append({'part': 'exact', 'shape': 'ellipse', 'rx': a, 'ry': b, 'theta': th, 'phase': list(p),
                                     'ptype': pt, 'mode': 'grid'})
+    # large and thin (the mask is several hundred pixels long): through to_mask on the whole box, also in the quick tier
+    for rx, ry, th in ((200.0, 6.25, 0.4), (6.25, 200.0, 0.0), (150.0, 2.5, math.pi / 6)):
+        out.append({'part': 'exact', 'shape': 'ellipse', 'rx': rx, 'ry': ry, 'theta': th, 'phase': list(GENERIC[int(seed) % 4]),
+                    'ptype': 'generic', 'mode': 'grid'})
     if tier == 'thorough':
         big = [{'shape': 'circle', 'r': 1000.0, 'phase': list(GENERIC[0]), 'ptype': 'generic'},
                {'shape': 'ellipse', 'rx': 1000.0, 'ry': 1000.0, 'theta': 1.0, 'phase': [0.5, 0.5], 'ptype': 'nice'},
